@@ -66,10 +66,20 @@ class Raises:
 
 
 class Interp:
-    def __init__(self, globals_: dict, where: str = ''):
+    def __init__(self, globals_: dict, where: str = '', modtree: ast.Module | None = None):
         self.g = dict(globals_)
         self.where = where
         self.yields = []
+        # module-level `name = <expr>` assignments of the folded function's module, evaluated on demand
+        self.modns = {}
+        if modtree is not None:
+            for st in modtree.body:
+                if isinstance(st, ast.Assign) and len(st.targets) == 1 and isinstance(st.targets[0], ast.Name):
+                    self.modns[st.targets[0].id] = st.value
+        import operator as _op
+        import functools as _ft
+        for nm, f in dict(attrgetter=_op.attrgetter, itemgetter=_op.itemgetter, partial=_ft.partial).items():
+            self.g.setdefault(nm, f)
         self.g.setdefault('type', lambda x: getattr(x, '_typ', type(x)))
         self.g.setdefault('bool', bool)
         self.g.setdefault('len', len)
@@ -352,6 +362,9 @@ class Interp:
             return True
         if name == 'False':
             return False
+        if name in self.modns:
+            v = self.g[name] = self.ev(self.modns[name], {})
+            return v
         raise self.fail(f'unknown name `{name}`')
 
     def _comp(self, gens, i, env, emit):
